@@ -162,7 +162,8 @@ class _P:
         return None
 
     def cls(self):
-        assert self.eat("[")
+        if not self.eat("["):   # (never an assert: the harness also runs under python -O)
+            raise Invalid("expected '['")
         neg = False
         if self.peek() == "^":
             # "[" [ "^" ] ... : '^' is also a CCchar, the ABNF is ambiguous here.
